@@ -146,12 +146,14 @@ def check(ctx, res) -> None:
 
     # ---------------- R15.2 parameter kinds
     gp = idx.need_func(f"{MOD}.PyFunction.get_param_names")
-    read = {x.attr for x in ast.walk(gp.node) if isinstance(x, ast.Attribute) and x.attr in PARAM_SLOTS
+    # the scope's parameter table is built by get_parameters() from get_param_names(): slots read by either count
+    builders = [gp] + ([idx.functions[f"{MOD}.PyFunction.get_parameters"]] if f"{MOD}.PyFunction.get_parameters" in idx.functions else [])
+    read = {x.attr for b in builders for x in ast.walk(b.node) if isinstance(x, ast.Attribute) and x.attr in PARAM_SLOTS
             and (is_self_attr(x.value, "arguments") or (isinstance(x.value, ast.Attribute) and x.value.attr == "args"))}
     for slot in PARAM_SLOTS:
         res.add("R15.2", f"PyFunction.get_param_names|{slot}", slot in read, gp.where,
                 f"parameter slot '{slot}' is read" if slot in read else
-                f"PyFunction.get_param_names never reads arguments.{slot}: parameters of that kind are not names of the function scope "
+                f"neither PyFunction.get_parameters nor get_param_names reads arguments.{slot}: parameters of that kind are not names of the function scope "
                 "(and the scope visitor has no handler for 'arg' nodes that could bind them)")
     # is there an 'arg' handler that would compensate?
     if "arg.arg" in all_bound:
